@@ -5,10 +5,12 @@ package ice
 // C08 — Close always terminates, unblocks everyone, and is final.
 
 import (
+	"os"
 	"context"
 	"errors"
 	"fmt"
 	"net"
+	"net/netip"
 	"runtime"
 	"strings"
 	"sync"
@@ -17,6 +19,7 @@ import (
 	"time"
 
 	"github.com/pion/ice/v4/internal/taskloop"
+	"github.com/pion/logging"
 	"github.com/pion/stun/v3"
 	"pgregory.net/rapid"
 )
@@ -569,6 +572,111 @@ func TestVerif_C08_CloseWithFloodedTCP(t *testing.T) {
 		st.Record(vfHashStr(desc), flood > readBuf, fmt.Sprintf("flooded:%v", flood > readBuf))
 		if flood > readBuf && st.WantSample() {
 			st.Sample(func() string { return desc })
+		}
+	})
+}
+
+// TestVerif_C08_CloseDuringSrflxMuxGather: server-reflexive gathering through a UniversalUDPMux whose STUN
+// server never answers, with a STUN gather timeout of a minute; Close (optionally after a Restart and a second
+// GatherCandidates) is injected once the request is on the wire and must return at once, not at the timeout.
+func TestVerif_C08_CloseDuringSrflxMuxGather(t *testing.T) {
+	st := vfNewStats(t)
+	lf := simLoggerFactory
+	if os.Getenv("VERIF_DEBUG_LOG") != "" {
+		lf = logging.NewDefaultLoggerFactory()
+		lf.DefaultLogLevel = logging.LogLevelDebug
+	}
+	rapid.Check(t, func(rt *rapid.T) {
+		flavour := rapid.SampledFrom([]string{"Close", "GracefulClose"}).Draw(rt, "flavour")
+		restartFirst := rapid.Bool().Draw(rt, "restartAndRegatherFirst")
+		withHost := rapid.Bool().Draw(rt, "hostCandidatesToo")
+		desc := fmt.Sprintf("flavour=%s restartFirst=%v withHost=%v", flavour, restartFirst, withHost)
+		before, _ := c08Census()
+		fn := newFakeNet([]fnIface{{Name: "eth0", Up: true, Addrs: []string{"10.0.0.1"}}})
+		base := newC12Base("10.0.0.1:7100")
+		requests := make(chan struct{}, 16)
+		base.onWrite = func(data []byte, dst netip.AddrPort) {
+			if netip.AddrPortFrom(dst.Addr().Unmap(), dst.Port()).String() == "198.51.100.1:3478" && stun.IsMessage(data) {
+				select {
+				case requests <- struct{}{}:
+				default:
+				}
+			}
+		}
+		mux := NewUniversalUDPMuxDefault(UniversalUDPMuxParams{Logger: lf.NewLogger("mux"), UDPConn: base, XORMappedAddrCacheTTL: time.Hour})
+		defer func() { _ = mux.Close() }()
+		types := []CandidateType{CandidateTypeServerReflexive}
+		if withHost {
+			types = append(types, CandidateTypeHost)
+		}
+		a, err := NewAgentWithOptions(WithNet(fn), WithLoggerFactory(lf), WithMulticastDNSMode(MulticastDNSModeDisabled),
+			WithCandidateTypes(types), WithNetworkTypes([]NetworkType{NetworkTypeUDP4}), WithUDPMuxSrflx(mux),
+			WithUrls([]*stun.URI{{Scheme: stun.SchemeTypeSTUN, Host: "198.51.100.1", Port: 3478, Proto: stun.ProtoTypeUDP}}),
+			WithSTUNGatherTimeout(time.Minute))
+		if err != nil {
+			rt.Fatalf("harness: %v", err)
+		}
+		_ = a.OnCandidate(func(Candidate) {})
+		waitRequest := func() {
+			select {
+			case <-requests:
+			case <-time.After(20 * time.Second):
+				_ = a.Close()
+				st.Inconclusive()
+				rt.Fatalf("VERIF-INCONCLUSIVE: no STUN request on the mux socket after 20 s")
+			}
+		}
+		if err := a.GatherCandidates(); err != nil {
+			rt.Fatalf("harness: %v", err)
+		}
+		waitRequest()
+		if restartFirst {
+			if err := a.Restart("", ""); err != nil {
+				rt.Fatalf("harness: %v", err)
+			}
+			if err := a.GatherCandidates(); err != nil {
+				rt.Fatalf("harness: %v", err)
+			}
+			waitRequest()
+		}
+		t0 := time.Now()
+		done := make(chan struct{})
+		go func() {
+			if flavour == "GracefulClose" {
+				_ = a.GracefulClose()
+			} else {
+				_ = a.Close()
+			}
+			close(done)
+		}()
+		select {
+		case <-done:
+		case <-time.After(20 * time.Second):
+			_, dump := vfStuck("pion/ice/v4")
+			st.Fail(rt, "C08/close/waits-for-stun-timeout", "%s has not returned 20 s after it was called while a STUN request through the srflx mux was unanswered (gather timeout 1 min) (%s)\n%s", flavour, desc, dump)
+		}
+		took := time.Since(t0)
+		st.Record(vfHashStr(desc), true, "restart-first:"+fmt.Sprint(restartFirst))
+		if st.WantSample() {
+			st.Sample(func() string { return fmt.Sprintf("%s: returned after %s", desc, took.Round(time.Millisecond)) })
+		}
+		// nothing started by the agent keeps running (bounded grace as in the main close test); the mux's own
+		// worker belongs to the application and is stopped first
+		_ = mux.Close()
+		ok := false
+		var after int
+		var sample string
+		for d := time.Now().Add(5 * time.Second); time.Now().Before(d); {
+			after, sample = c08Census()
+			if after <= before {
+				ok = true
+
+				break
+			}
+			time.Sleep(2 * time.Millisecond)
+		}
+		if !ok {
+			st.Fail(rt, "C08/final/goroutine-left", "%d pion/ice goroutine(s) before, %d still running 5 s after %s returned (%s), e.g.\n%s", before, after, flavour, desc, sample)
 		}
 	})
 }
